@@ -52,6 +52,7 @@ struct Inner {
     step_budget: u64,
     sim_time_ns: u64,
     sample: Option<String>,
+    frozen: bool,
 }
 
 #[derive(Clone)]
@@ -78,6 +79,7 @@ impl Sim {
             step_budget: 3_000_000,
             sim_time_ns: 0,
             sample: None,
+            frozen: false,
         })))
     }
 
@@ -222,9 +224,15 @@ impl Sim {
 
     /// Record a human-readable event; the closure runs only when tracing is on (replays and the
     /// re-run of a failing seed), so logging never perturbs a run and costs nothing in batches.
+    /// Stop recording events and schedule marks: used before tearing a runtime down, where the
+    /// order in which tokio drops the remaining tasks is not part of the simulated execution.
+    pub fn freeze(&self) {
+        self.lock().frozen = true;
+    }
+
     pub fn ev<F: FnOnce() -> String>(&self, f: F) {
         let mut g = self.lock();
-        if g.trace_on {
+        if g.trace_on && !g.frozen {
             let s = f();
             g.events.push(s);
         }
@@ -233,6 +241,9 @@ impl Sim {
     /// Fold an observed event kind into the schedule hash (N engine: event-kind trace).
     pub fn mark(&self, v: u64) {
         let mut g = self.lock();
+        if g.frozen {
+            return;
+        }
         let mut x = g.hash ^ v.wrapping_mul(0xD6E8_FEB8_6659_FD93);
         g.hash = crate::rng::splitmix64(&mut x);
     }
